@@ -93,7 +93,9 @@ type borrow struct {
 }
 
 var borrows = map[string][]borrow{
-	"C01": {{"C03", "C03.R8|SetERC20ToTokenDenom", "C01.R9", "token identity of pending transfers: pool entries and batches name their token by ERC20 contract only, so the contract -> denom binding is written only when the contract has no binding yet (otherwise refunds, burns and mints of pending transfers move another denom); decided by the rule C03.R8", 1}},
+	"C01": {{"C03", "C03.R8|SetERC20ToTokenDenom", "C01.R9", "token identity of pending transfers: pool entries and batches name their token by ERC20 contract only, so the contract -> denom binding is written only when the contract has no binding yet (otherwise refunds, burns and mints of pending transfers move another denom); decided by the rule C03.R8", 1},
+		{"C02", "C02.R2|Attest|append vote|voter de-duplicated", "C01.R10", "supply changes only by attested deposits: a deposit is minted when the votes reach the quorum, so a validator's vote on it is counted once (decided by the rule C02.R2)", 1}},
+	"C07": {{"C04", "C04.R2|VerifyEvidence|", "C07.R6", "success effects follow the evidence a quorum agrees on: the power behind the winning proof is counted per evidence group (decided by the rule C04.R2)", 2}},
 	"C02": {
 		{"C11", "C11.R1|", "C02.R5", "votes are pooled by claim hash: the validators that reach the quorum voted for the identical claim only if every effect-bearing field of the claim is hashed (decided by the rule C11.R1)", 20},
 		{"C03", "C03.R3|skyway.SendToPalomaClaim", "C02.R6", "each validator votes for itself: a claim's orchestrator is the message creator (decided by the rule C03.R3)", 1},
@@ -104,12 +106,14 @@ var borrows = map[string][]borrow{
 		{"C17", "C17.R1|saveJob|the job id", "C03.R9", "a create request cannot touch another account's job: the id asked about is the id written (decided by the rule C17.R1)", 1},
 		{"C17", "C17.R1|AddNewJob|the job id", "C03.R9", "a create request cannot touch another account's job: the id asked about is the id written (decided by the rule C17.R1)", 1},
 		{"C18", "C18.R3|sale|the fee allowance is granted", "C03.R11", "a sale the client never signed must not make somebody an authorised signer for the client: the fee grant goes from the fee granter to the client (decided by the rule C18.R3)", 1},
+		{"C16", "C16.R1|", "C03.R12", "a user's token denominations change only through their admin: each privileged token operation compares the creator with the admin of the very denomination it acts on (decided by the rule C16.R1)", 4},
 		{"C16", "C16.R5|validateCreateDenom|", "C03.R10", "a create request cannot re-create (and thereby take back) a denomination that exists: existence is asked for the very name being created (decided by the rule C16.R5)", 2},
 	},
 	"C04": {{"C07", "C07.R5|attestMessageWrapper|the message is removed on the cached context", "C04.R7", "a message leaves the queue together with its effects: it is removed on the cached context that carries them (decided by the rule C07.R5)", 1}},
 	"C09": {{"C14", "C14.R5|CheckAndProcessEstimatedMessages|a failing message", "C09.R5", "a value that cannot be processed is skipped with the rest of the block unaffected: a failing message does not end the estimate pass of its queue (decided by the rule C14.R5)", 1}},
 	"C13": {{"C04", "C04.R3|AddEvidence|", "C13.R4", "the 10 % floor counts each attesting validator once: a validator's evidence entry is replaced, never duplicated (VerifyEvidence adds a validator's shares once per entry); decided by the rule C04.R3", 1}},
 	"C16": {{"C03", "C03.R2|AnteHandle|", "C16.R9", "the admin check compares the admin with Metadata.Creator, which is only as good as the ante decorator that ties the creator of each message to that message's signers or grantees (decided by the rule C03.R2)", 2}},
+	"C18": {{"C03", "C03.R2|AnteHandle|", "C18.R6", "activated only by the licensed address itself: the registration acts for Metadata.Creator, which is only as good as the ante decorator that ties the creator of every message of a transaction to that message's signers (decided by the rule C03.R2)", 2}},
 	"C15": {
 		{"C01", "C01.R3|(x/skyway/keeper.Keeper).OutgoingTxBatchExecuted", "C15.R7", "the tax recorded with the transfers of a batch is burned with them on execution (decided by the rule C01.R3)", 1},
 		{"C01", "C01.R3|(x/skyway/keeper.Keeper).RemoveFromOutgoingPoolAndRefund", "C15.R6", "the tax recorded with the transfer is what a cancellation returns: the refund is the stored amount plus the stored tax, not a recomputation under the current settings; decided by the rule C01.R3", 1},
